@@ -249,6 +249,16 @@ type decoder struct {
 	rd io.Reader
 }
 
+// ensure reports an error if the input is known to hold fewer than n more
+// bytes, so that a length or count field claimed by the peer cannot make the
+// decoder allocate more than the message could possibly carry.
+func (d *decoder) ensure(n uint64) error {
+	if lr, ok := d.rd.(interface{ Len() int }); ok && n > uint64(lr.Len()) {
+		return io.ErrUnexpectedEOF
+	}
+	return nil
+}
+
 // read9p extracts values from rd and unmarshals them to the targets of vs.
 func (d *decoder) decode(vs ...interface{}) error {
 	for _, v := range vs {
@@ -261,6 +271,10 @@ func (d *decoder) decode(vs ...interface{}) error {
 			var ll uint32
 
 			if err := d.decode(&ll); err != nil {
+				return err
+			}
+
+			if err := d.ensure(uint64(ll)); err != nil {
 				return err
 			}
 
@@ -298,6 +312,11 @@ func (d *decoder) decode(vs ...interface{}) error {
 				return err
 			}
 
+			// each string takes at least its 2-byte length on the wire
+			if err := d.ensure(2 * uint64(ll)); err != nil {
+				return err
+			}
+
 			elements := make([]interface{}, int(ll))
 			*v = make([]string, int(ll))
 			for i := range elements {
@@ -322,6 +341,11 @@ func (d *decoder) decode(vs ...interface{}) error {
 			var ll uint16
 
 			if err := d.decode(&ll); err != nil {
+				return err
+			}
+
+			// each qid takes 13 bytes on the wire
+			if err := d.ensure(13 * uint64(ll)); err != nil {
 				return err
 			}
 
